@@ -12,6 +12,8 @@ CONSTANTS
   FixLeave = %(fl)s
   FixWrap = %(fw)s
   MaxTry = 2
+  TrackCov = FALSE
+  Goal = "none"
   MCLayout <- %(lay)s
   InitMembers = %(init)s
   Joiners = %(j)s
